@@ -210,11 +210,29 @@ fn history_strategy() -> BoxedStrategy<Vec<Step>> {
     // a small pool of inputs per history so that the same input recurs after other calls
     (vec((0..4usize).prop_flat_map(|pi| (Just(pi), strings_for(PROFS[pi]))), 1..6), vec((0..64usize, 0..3usize, 0..16usize, 0..64usize, 0..64usize), 0..40))
         .prop_map(|(pool, steps)| {
+            // the pool also holds "plane aliases" of its strings (same low 16 bits, other plane), bare and with a
+            // trailing character that makes an LTR label invalid: calls on them right after the original expose state
+            // that is keyed on too few bits of a code point
+            let mut full: Vec<String> = Vec::new();
+            for (_, s) in &pool {
+                full.push(s.clone());
+                for k in [1u32, 2] {
+                    let up = crate::gens::plane_alias(s, k, true);
+                    if up != *s {
+                        full.push(format!("{up}_"));
+                        full.push(up);
+                    }
+                }
+                let down = crate::gens::plane_alias(s, 1, false);
+                if down != *s {
+                    full.push(down);
+                }
+            }
             steps
                 .into_iter()
                 .map(|(pi, ki, fi, ai, bi)| {
-                    let a = pool[ai % pool.len()].1.clone();
-                    let b = pool[bi % pool.len()].1.clone();
+                    let a = full[ai % full.len()].clone();
+                    let b = full[bi % full.len()].clone();
                     (pi % 4, ki, fi, a, b)
                 })
                 .collect()
@@ -271,8 +289,69 @@ pub fn race_child(seed: u64) -> i32 {
             .collect();
         hs.into_iter().map(|h| h.join().unwrap()).collect()
     });
+    // phase 2: every thread makes the SAME call at (almost) the same instant, for each of a few thousand one-character
+    // inputs whose classification needs extra work on first use (characters with decompositions); a spin barrier keeps the
+    // threads within a few hundred nanoseconds of each other
+    let d = crate::ucd::db();
+    let mut chars: Vec<char> = Vec::new();
+    let mut x = seed;
+    for cp in 0x80u32..0x30000 {
+        if d.u16.dtag[cp as usize] != crate::ucd::DT_NONE {
+            if crate::engine::splitmix(&mut x) % 10 == 0 {
+                if let Some(c) = char::from_u32(cp) {
+                    chars.push(c);
+                }
+            }
+        }
+    }
+    let arrived = std::sync::atomic::AtomicUsize::new(0);
+    let nt2 = std::thread::available_parallelism().map(|n| n.get()).unwrap_or(8).min(12);
+    let phase2: Vec<Vec<Result<String, RErr>>> = std::thread::scope(|s| {
+        let hs: Vec<_> = (0..nt2)
+            .map(|t| {
+                let chars = &chars;
+                let arrived = &arrived;
+                s.spawn(move || {
+                    let mut out = Vec::with_capacity(chars.len());
+                    let mut buf = [0u8; 4];
+                    let mut slow = 0u32;
+                    for (i, c) in chars.iter().enumerate() {
+                        arrived.fetch_add(1, std::sync::atomic::Ordering::AcqRel);
+                        let target = (i + 1) * nt2;
+                        let mut spins = 0u64;
+                        while slow < 8 && arrived.load(std::sync::atomic::Ordering::Acquire) < target {
+                            std::hint::spin_loop();
+                            spins += 1;
+                            if spins > 2_000_000 {
+                                slow += 1; // a descheduled thread: go on rather than hang; after 8 of these stop synchronising
+                                break;
+                            }
+                        }
+                        let st: &str = c.encode_utf8(&mut buf);
+                        out.push(if (t + i) % 2 == 0 { o(<UsernameCasePreserved as PrecisFastInvocation>::prepare(&*st)) } else { o(<Nickname as PrecisFastInvocation>::prepare(&*st)) });
+                    }
+                    out
+                })
+            })
+            .collect();
+        hs.into_iter().map(|h| h.join().unwrap()).collect()
+    });
     // single-threaded, fresh instances, afterwards
     let mut bad = 0;
+    for (t, res) in phase2.iter().enumerate() {
+        for (i, r) in res.iter().enumerate() {
+            let st = chars[i].to_string();
+            let p = if (t + i) % 2 == 0 { Prof::UserPreserved } else { Prof::Nick };
+            let want = imp_prepare(p, &st);
+            if *r != want {
+                bad += 1;
+                println!("MISMATCH {}", json!({"phase": "same call from all threads at once", "thread": t, "profile": p.name(), "call": "prepare", "a": jstr(&st), "concurrent": format!("{r:?}"), "single_threaded": format!("{want:?}")}));
+                if bad > 3 {
+                    return 1;
+                }
+            }
+        }
+    }
     for (t, res) in results.iter().enumerate() {
         for (k, r) in res.iter().enumerate() {
             let (pi, ki, a, b) = &inputs[(k + t * 15) % inputs.len()];
@@ -287,7 +366,7 @@ pub fn race_child(seed: u64) -> i32 {
             }
         }
     }
-    println!("RACE-OK calls={}", results.iter().map(|r| r.len()).sum::<usize>());
+    println!("RACE-OK calls={}", results.iter().map(|r| r.len()).sum::<usize>() + phase2.iter().map(|r| r.len()).sum::<usize>());
     if bad > 0 { 1 } else { 0 }
 }
 
@@ -315,8 +394,9 @@ pub fn run(run: &Run) {
          default(), one long-lived instance per thread, one instance shared by all 16 threads, static PrecisFastInvocation} x argument form {&str, String, \
          Cow::Borrowed, Cow::Owned; for compare (&str,&str), (String,String), (&String,&str), (Cow,Cow)} while 16 threads run concurrently; (b) histories: \
          proptest sequences of up to 40 calls over a small input pool (so inputs recur after other profiles' calls) on long-lived/shared/static instances, \
-         each step compared with the same call on a fresh instance; (c) first-use race: the checker re-executes itself N times; in each child 16 threads wait \
-         on a barrier and make their very first library calls through the static API (a different profile per thread), followed by 240 generated calls; results \
+         each step compared with the same call on a fresh instance; (c) first-use race: the checker re-executes itself N times (24 quick / 600 thorough, one child at a time); in each child 16 threads wait \
+         on a barrier and make their very first library calls through the static API (a different profile per thread), followed by 240 generated calls, then a second phase in which 12 threads, kept together by a spin barrier, make the SAME first-time call at the same instant \
+         for each of a few thousand one-character inputs (characters with decompositions); results \
          are compared with single-threaded fresh-instance results computed afterwards. Oracle: differential equality of results (content of Cow, error \
          values). Non-trivial: accepted input that some step changes / compare of distinct strings; history with >= 2 profiles and >= 1 rejected input; each \
          race child. LIMIT: thread interleavings are whatever the OS scheduler produces (sampling, not control).",
@@ -326,16 +406,18 @@ pub fn run(run: &Run) {
         check_forms(PROFS[*pi], KINDS[*ki], a, b, l)
     });
     run.prop("histories", run.pick(8_000, 300_000), history_strategy, |h, l| check_history(h, l));
-    let children = run.pick(48u64, 1000u64);
-    run.par("first_use_race", false, |tid, n, l| {
-        let mut i = tid as u64;
-        while i < children {
+    // children run one after the other: each one uses all cores itself (16 racing threads, then 12 spinning threads)
+    let children = run.pick(24u64, 600u64);
+    run.par("first_use_race", false, |tid, _n, l| {
+        if tid != 0 {
+            return;
+        }
+        for i in 0..children {
             l.cases += 1;
             if let Err(v) = check_race(run.seed.wrapping_mul(1_000_003).wrapping_add(i), l) {
                 run.violate(v);
                 return;
             }
-            i += n as u64;
         }
     });
 }
